@@ -28,11 +28,14 @@ pub struct Tracker {
     pub quarantine: Vec<(usize, Layout)>,
     /// Event log of the running program (shared with the interpreter so that ordering is global).
     pub events: Vec<String>,
+    /// while set: addresses of the blocks allocated with this size (to attribute transient allocations of the crate)
+    pub watch_size: Option<usize>,
+    pub watched: Vec<usize>,
 }
 
 impl Tracker {
     pub fn new() -> Tracker {
-        Tracker { blocks: HashMap::new(), quarantine: Vec::new(), events: Vec::new() }
+        Tracker { blocks: HashMap::new(), quarantine: Vec::new(), events: Vec::new(), watch_size: None, watched: Vec::new() }
     }
 }
 
@@ -109,6 +112,9 @@ unsafe impl GlobalAlloc for Instrumented {
         if tracking {
             with_tracker(|t| {
                 t.blocks.insert(p as usize, Block { size: layout.size(), align: layout.align(), live: true, tag: Tag::None });
+                if t.watch_size == Some(layout.size()) {
+                    t.watched.push(p as usize);
+                }
             });
         }
         p
@@ -186,3 +192,6 @@ pub fn set_tag(addr: usize, tag: Tag) -> bool {
 pub fn is_live(addr: usize) -> bool {
     block_at(addr).map(|b| b.live).unwrap_or(false)
 }
+
+/// Size of the box of the crate's private `CleanerMap` (measured once at start-up, 0 if unknown).
+pub static MAP_BOX_SIZE: std::sync::atomic::AtomicUsize = std::sync::atomic::AtomicUsize::new(0);
